@@ -17,9 +17,12 @@ def main():
     subs = {s.name: s for s in mod.SUBS}
     ctx = core.Ctx(prop, "quick", 0)
     res = []
+    skip = set(json.loads(os.environ.get("VERIF_REGRESS_SKIP", "[]")))
     for f in sorted(os.listdir(reg_dir)):
-        if not f.endswith(".json"):
+        if not f.endswith(".json") or f in skip:
             continue
+        with open(out + ".cur", "w") as fh:
+            fh.write(f)
         rec = json.load(open(os.path.join(reg_dir, f)))
         try:
             sub = subs[rec["sub"]]
@@ -29,7 +32,13 @@ def main():
                             known=core.match_known(prop, sub.name, rec["case"], v) if v else None))
         except Exception as e:  # harness error
             res.append(dict(file=f, sub=rec.get("sub"), error="".join(traceback.format_exception(type(e), e, e.__traceback__))[-2000:]))
-    json.dump(res, open(out, "w"), default=core.jdefault)
+        with open(out + ".tmp", "w") as fh:
+            json.dump(res, fh, default=core.jdefault)
+        os.replace(out + ".tmp", out)
+    if os.path.exists(out + ".cur"):
+        os.unlink(out + ".cur")
+    if not res:
+        json.dump(res, open(out, "w"))
 
 
 if __name__ == "__main__":
